@@ -59,3 +59,87 @@ Example C04_xdma_degenerate_collides :
   nodupZb (all_addrs (xdma_map (mkCfg [mkStreamer [] [] []] false))) = false.
 Proof. exact xdma_degenerate_collides. Qed.
 Print Assumptions C04_xdma_degenerate_collides.
+
+(* ---- part B: the lowering to CSR accesses ------------------------------------------------------------
+   Source: abstract accfg IR (Model/AccIR.v) run as a sequence of per-field configuration writes
+   ([frun]: FSet / FLaunch / FAwait / FCallE events, program order, any loops / ifs / trip counts).
+   Target: CSR instruction IR executed on the CSR machine ([crun]: CW addr value | CR addr | CCallE).
+   [expand am busy] is the CSR trace the source trace demands: one CW per FSet to the declared address
+   of the field with the field's value, one CW per launch field to the declared launch address, per
+   await the polls of the declared barrier register (style 1: + clear of 0x3c5; style 4: two zero-writes
+   per launch field), calls unchanged — all in source order. *)
+From Snax Require Import Model.AccIR Model.AccSem Model.C04Csr Proofs.C04CsrProofs.
+
+Theorem C04_lower_refines :
+  forall (am : amapT) (co : coracle) (p : prog) (cb : cblock) (args : list Z),
+  lower_block am (p_body p) = Some cb ->
+  expand am (co_busy co) 0%nat (frun (co_orc co) p args) = Some (crun co (p_params p) cb args)
+  /\ fenv (fexec_block (co_orc co) (p_body p) (finit p args))
+     = cenv (cexec_block co cb (cinit co (p_params p) args)).
+Proof. exact lower_refines. Qed.
+Print Assumptions C04_lower_refines.
+
+(* the lowering succeeds on every program whose accelerators / fields are declared and that contains
+   no accfg.reset (the Python raises KeyError / leaves a malformed op otherwise) *)
+Theorem C04_lower_total :
+  forall am b, block_declared am b = true -> exists cb, lower_block am b = Some cb.
+Proof. exact lower_total. Qed.
+Print Assumptions C04_lower_total.
+
+(* No state-tracking value survives: the lowered program mentions exactly the ids that sit at integer
+   positions of the source; under MLIR typing (a state/token id is never used at an integer position)
+   no state or token id occurs in the output. *)
+Theorem C04_no_state_survives :
+  forall am b cb, lower_block am b = Some cb ->
+  (forall x, In x (block_state_ids b) -> ~ In x (block_int_ids b)) ->
+  forall x, In x (block_state_ids b) -> ~ In x (cblock_ids cb).
+Proof. exact no_state_survives. Qed.
+Print Assumptions C04_no_state_survives.
+
+(* Where injectivity of the register map is needed: if the setup-field addresses, launch addresses and
+   the clear register of an accelerator are pairwise distinct, then after the CSR trace of ANY source
+   trace that talks to this accelerator every configured field holds, in the CSR file, the last value
+   the program wrote to it (launches, barrier polls and barrier writes do not disturb it). *)
+Theorem C04_csr_holds_config :
+  forall (ai : accinfo) (a0 : acc) (busy : nat -> nat),
+  NoDup (map snd (ai_fields ai) ++ map snd (ai_launch ai) ++ [CLEAR_ADDR]) ->
+  forall t n r c ct,
+  only_acc a0 t -> agree ai r c ->
+  expand [ai] busy n (map (fun e => match e with
+                                     | FSet _ f v => FSet 0%nat f v
+                                     | FLaunch _ f v => FLaunch 0%nat f v
+                                     | FAwait _ => FAwait 0%nat
+                                     | e' => e' end) t) = Some ct ->
+  agree ai (regs_after a0 t r) (csr_after ct c).
+Proof. exact csr_holds_config. Qed.
+Print Assumptions C04_csr_holds_config.
+
+(* non-vacuity: a loop carrying a state and an integer, style-4 barrier; hypotheses hold, output non-trivial *)
+Definition C04_ex_am : amapT := [mkAccInfo [(0%nat, 970); (1%nat, 971)] [(2%nat, 980); (3%nat, 981)] 990 BWrite4].
+Definition C04_ex_prog : prog :=
+  mkProg [0; 1; 2; 3]%nat
+    [SSetup 0 4 None [(0, 0)];
+     SFor 5 1 2 3 [(6, 4, TState 0); (7, 0, TInt)] [8; 9]
+       [SSetup 0 10 (Some 6) [(1, 5); (0, 7)];
+        SLaunch 0 11 10 [(2, 7)];
+        SAwait 0 11;
+        SPure 12 (PBin BAdd 7 0)]
+       [10; 12];
+     SSetup 0 13 (Some 8) [(0, 9)];
+     SLaunch 0 14 13 [];
+     SAwait 0 14]%nat.
+
+Example C04_lower_nonvacuous :
+  block_declared C04_ex_am (p_body C04_ex_prog) = true
+  /\ (exists cb, lower_block C04_ex_am (p_body C04_ex_prog) = Some cb /\ (List.length cb = 7)%nat)
+  /\ (forall x, In x (block_state_ids (p_body C04_ex_prog)) -> ~ In x (block_int_ids (p_body C04_ex_prog)))
+  /\ NoDup (map snd (ai_fields (hd (mkAccInfo [] [] 0 BPoll3) C04_ex_am))
+            ++ map snd (ai_launch (hd (mkAccInfo [] [] 0 BPoll3) C04_ex_am)) ++ [CLEAR_ADDR]).
+Proof.
+  split; [reflexivity|]. split; [eexists; split; [vm_compute; reflexivity|reflexivity]|]. split.
+  - intros x Hx Hi. cbn in Hx, Hi.
+    repeat (destruct Hx as [Hx|Hx]; [subst x; repeat (destruct Hi as [Hi|Hi]; [discriminate|]); exact Hi|]).
+    exact Hx.
+  - cbn. repeat constructor; cbn; intuition discriminate.
+Qed.
+Print Assumptions C04_lower_nonvacuous.
